@@ -13,17 +13,26 @@ RULE = ("random valid Lattice configurations (rank 1-4, sizes 2-5, <= 72 vertice
         "duplicated), ~5% configurations WITHOUT a monotone dimension but with unimodalities / joint monotonicities / "
         "joint unimodalities (strict path = Dykstra result, clipped), "
         "num_projection_iterations 0-4) x kernel classes (random, far +-64, ties, sorted, anti-sorted, "
-        "constant, noisy-feasible; unit columns of different magnitude). Each desc runs "
+        "constant, noisy-feasible; unit columns of different magnitude; ~12% 'feasible_rich': a kernel meeting EVERY "
+        "configured constraint - all eight families and the bounds - exactly, built by latgen.feasible_rich from the "
+        "NNLS projection of a random kernel onto the constraint polyhedron, made exactly representable, fitted into "
+        "the bounds and re-checked with the exact predicates: ties, active and slack constraints, plateaus on a "
+        "bound, not additive; LatticeConstraints and finalize_constraints must return it unchanged). Each desc runs "
         "lattice_lib.finalize_constraints(w) and strict LatticeConstraints(w) (with the real Dykstra stage's "
-        "output handed to the model). Non-trivial = the constraint changed the kernel; distinct = distinct "
-        "(config, kernel).")
+        "output handed to the model). ~10% of the cases run in float32 (class suffix _f32; kernels are multiples of "
+        "1/8 below 17, exact in float32) with the constraint object taken from a built float32 tfl.layers.Lattice "
+        "(layer.kernel.constraint); a further ~8% take the constraint from a built float64 layer (suffix _layer). "
+        "Non-trivial = the constraint changed the kernel; distinct = distinct (config, kernel).")
 TRUSTED = ["model: Model/LatticeFinalize.v (hand-written from lattice_lib.finalize_constraints and helpers, "
            "LatticeConstraints.__call__); the Dykstra stage is NOT part of this property's model: its real output "
            "is an input of the model (the theorems hold for an arbitrary kernel entering finalize)",
-           "tie: finalize_constraints and LatticeConstraints called on float64 kernels; compared in Coq"]
+           "tie: finalize_constraints and LatticeConstraints (direct object, or layer.kernel.constraint of a built "
+           "Lattice layer) called on float64 kernels (tolerance 1e-9) and on float32 kernels (tolerance 1e-5, passed to "
+           "Coq with the case: CTol); compared in Coq"]
 LIMITS = ["documented exception (>= 2 trapezoid trusts sharing a conditional feature while Edgeworth trusts "
           "exist): trapezoid inequalities are not demanded there",
-          "float rounding outside the model (tolerance 1e-9; predicate tolerance 1e-7)"]
+          "float rounding outside the model (float64: tolerance 1e-9, predicate tolerance 1e-7; float32 cases: 1e-5 "
+          "* max(1, |v|) in the Coq comparison and in the predicates)"]
 SHARD = 60
 
 PRED_TOL = 1e-7
@@ -53,9 +62,13 @@ def _d1(case):
 KNOWN_CLASSES = {"trap_mono_cond_with_edgeworth": _d1}
 
 
-def violations(w, cfg, scale):
+F32_TOL = 1e-5
+F32_KCLASSES = ["random", "random", "ties", "sorted", "constant", "noise"]
+
+
+def violations(w, cfg, scale, rel=PRED_TOL):
   out = []
-  tol = PRED_TOL * max(1.0, scale)
+  tol = rel * max(1.0, scale)
   # monotone dimensions that are the CONDITIONAL feature of a trapezoid trust are judged separately: known finding D1
   # concerns exactly them (theorem C01_monotone carries the guard; the Edgeworth / trapezoid / bounds theorems do not)
   cond = set(c for _, c, _ in cfg["trap"])
@@ -75,14 +88,38 @@ def violations(w, cfg, scale):
   return out
 
 
+def _f32_exact(w):
+  a = np.asarray(w, dtype=np.float64)
+  return bool((a.astype(np.float32).astype(np.float64) == a).all())
+
+
 def gen_descs(ctx):
   rng = ctx.rng
   out = []
   for _ in range(ctx.n(400, 5000)):
     # ~5%: no monotone dimension but unimodalities / joint constraints (Dykstra block entered, finalize is the identity)
     cfg = latgen.gen_cfg_nomono(rng) if rng.random() < 0.05 else latgen.gen_cfg(rng)
-    klass = rng.choice(latgen.KERNEL_CLASSES)
-    out.append(dict(cfg=cfg, kclass=klass, w=latgen.gen_kernel(rng, cfg, klass), iters=rng.choice([0, 1, 1, 2, 4])))
+    f32 = rng.random() < 0.1
+    klass = rng.choice(F32_KCLASSES if f32 else latgen.KERNEL_CLASSES)
+    w = None
+    if rng.random() < 0.12:
+      # a RICH kernel meeting every configured constraint exactly (must come back unchanged)
+      w, tag = latgen.feasible_rich(rng, cfg)
+      if w is not None and f32 and not _f32_exact(w):
+        w = None
+      if w is not None:
+        klass = "feasible_rich"
+    if w is None:
+      w = latgen.gen_kernel(rng, cfg, klass, unit_scale=not f32)
+      if f32 and klass == "random":
+        # a few 2^-12 on top of the 1/8 grid: exact in float32, not in float16 / bfloat16
+        w = [[v + rng.choice([0, 0, 1, -1, 3, -5]) * 2.0 ** -12 for v in row] for row in w]
+    d = dict(cfg=cfg, kclass=klass, w=w, iters=rng.choice([0, 1, 1, 2, 4]))
+    if f32:
+      d["dtype"] = "float32"
+    if f32 or rng.random() < 0.08:
+      d["via_layer"] = True     # the constraint object is layer.kernel.constraint of a built tfl.layers.Lattice
+    out.append(d)
   return out
 
 
@@ -96,28 +133,52 @@ def flat(m):
   return [float(x) for row in np.asarray(m) for x in row]
 
 
+def build_constraint(tfl, cfg, iters, via_layer, dtype):
+  """The strict LatticeConstraints: built directly, or taken from a built Lattice layer of the given dtype."""
+  kw = latgen.constraint_kwargs(cfg, iters, True)
+  if not via_layer:
+    return tfl.lattice_layer.LatticeConstraints(**kw)
+  kw["monotonic_at_every_step"] = kw.pop("enforce_strict_monotonicity")
+  layer = tfl.layers.Lattice(units=cfg["units"], kernel_initializer="zeros", dtype=dtype, **kw)
+  rank = len(cfg["sizes"])
+  layer.build((None, rank) if cfg["units"] == 1 else (None, cfg["units"], rank))
+  if layer.kernel.dtype.base_dtype.name != dtype:
+    raise ValueError("layer built with dtype=%s has a kernel of dtype %s" % (dtype, layer.kernel.dtype.base_dtype.name))
+  return layer.kernel.constraint
+
+
 def eval_cases(ctx, descs):
   tf, tfl = tfimpl.tfl()
   lib = tfl.lattice_lib
   cases = []
   for d in descs:
     cfg = d["cfg"]
+    f32 = d.get("dtype") == "float32"
+    dtype = "float32" if f32 else "float64"
+    rel = F32_TOL if f32 else 1e-9       # model comparison / "unchanged"
+    prel = F32_TOL if f32 else PRED_TOL  # property inequalities
     W = np.array(d["w"], dtype=np.float64)
+    Wt = tf.constant(W.astype(np.float32) if f32 else W)
+    W = Wt.numpy().astype(np.float64)    # what the implementation really receives (identical: the kernels are exact)
     scale = float(np.abs(W).max())
     fails = []
     # (a) finalize_constraints on the raw kernel
-    fin = lib.finalize_constraints(
-        tf.constant(W), lattice_sizes=list(cfg["sizes"]), monotonicities=list(cfg["monos"]),
+    fin_t = lib.finalize_constraints(
+        Wt, lattice_sizes=list(cfg["sizes"]), monotonicities=list(cfg["monos"]),
         edgeworth_trusts=latgen.tuples(cfg["edge"]), trapezoid_trusts=latgen.tuples(cfg["trap"]),
-        output_min=cfg["omin"], output_max=cfg["omax"]).numpy()
+        output_min=cfg["omin"], output_max=cfg["omax"])
     # (b) strict constraint
-    con = tfl.lattice_layer.LatticeConstraints(**latgen.constraint_kwargs(cfg, d["iters"], True))
-    out = con(tf.constant(W)).numpy()
+    con = build_constraint(tfl, cfg, d["iters"], bool(d.get("via_layer")), dtype)
+    out_t = con(Wt)
+    fin, out = fin_t.numpy().astype(np.float64), out_t.numpy().astype(np.float64)
     ran = bool(any(cfg["monos"]) or any(cfg["uni"]) or cfg["jmono"] or cfg["juni"])
     if ran:
-      wd = lib.project_by_dykstra(tf.constant(W), **latgen.dykstra_kwargs(cfg, d["iters"])).numpy()
+      wd = lib.project_by_dykstra(Wt, **latgen.dykstra_kwargs(cfg, d["iters"])).numpy().astype(np.float64)
     else:
       wd = W
+    if fin_t.dtype != Wt.dtype or out_t.dtype != Wt.dtype:
+      fails.append("a %s kernel comes back as %s (finalize_constraints) / %s (LatticeConstraints)" % (
+          dtype, fin_t.dtype.name, out_t.dtype.name))
     if not (np.all(np.isfinite(out)) and np.all(np.isfinite(fin))):
       fails.append("non-finite kernel returned")
     else:
@@ -127,25 +188,32 @@ def eval_cases(ctx, descs):
         fcfg = dict(cfg)
         if not (cfg["edge"] or cfg["trap"]):
           fcfg = dict(cfg, omin=None, omax=None)
-        fails += ["finalize_constraints: " + s for s in violations(fin, fcfg, scale)]
-      fails += ["LatticeConstraints: " + s for s in violations(out, cfg, scale)]
-      # feasible kernels are returned unchanged
-      if not violations(W, dict(cfg), 0.0) and latpred.trapezoid_viol(W, cfg["sizes"], cfg["trap"]) <= 0 \
-         and latpred.unimodality_viol(W, cfg["sizes"], cfg["uni"]) <= 0 \
-         and latpred.monotonic_dominance_viol(W, cfg["sizes"], cfg["mdom"]) <= 0 \
-         and latpred.range_dominance_viol(W, cfg["sizes"], cfg["rdom"]) <= 0 \
-         and latpred.joint_monotonicity_viol(W, cfg["sizes"], cfg["jmono"]) <= 0 and not cfg["juni"]:
-        if np.abs(out - W).max() > 1e-9 * max(1.0, scale):
+        fails += ["finalize_constraints: " + s for s in violations(fin, fcfg, scale, prel)]
+      fails += ["LatticeConstraints: " + s for s in violations(out, cfg, scale, prel)]
+      # feasible kernels are returned unchanged: the strict constraint when EVERY configured constraint (all eight
+      # families and the bounds) holds exactly; lattice_lib.finalize_constraints when the constraints it is given
+      # (monotonicity, trusts, bounds) hold exactly
+      if latgen.exactly_feasible(W, cfg):
+        if np.abs(out - W).max() > rel * max(1.0, scale):
           fails.append("LatticeConstraints: feasible kernel changed by %r" % np.abs(out - W).max())
+      fin_cfg = dict(cfg, uni=[0] * len(cfg["sizes"]), mdom=[], rdom=[], jmono=[], juni=[])
+      if latgen.exactly_feasible(W, fin_cfg):
+        if np.abs(fin - W).max() > rel * max(1.0, scale):
+          fails.append("finalize_constraints: feasible kernel changed by %r" % np.abs(fin - W).max())
+      elif d["kclass"] == "feasible_rich":
+        fails.append("harness: a feasible_rich kernel does not pass the exact predicates")
     coq = ["CFin %s %s %s" % (coq_cfg(cfg), cql(flat(W)), cql(flat(fin))),
            "CCon %s %s %s %s" % (coq_cfg(cfg), cbool(ran), cql(flat(wd)), cql(flat(out)))]
+    if f32:
+      coq = ["CTol %s (%s)" % (cq(F32_TOL), c) for c in coq]
     moved = np.abs(out - W).max() > 1e-12
     nomono_ran = ran and not any(cfg["monos"])
-    klass = "r%d_u%d_%s%s%s%s%s_%s" % (len(cfg["sizes"]), cfg["units"], "nomonoDykstra" if nomono_ran else "",
-                                      "E" if cfg["edge"] else "", "T" if cfg["trap"] else "",
-                                      "B" if cfg["omin"] is not None or cfg["omax"] is not None else "",
-                                      "O" if (any(cfg["uni"]) or cfg["mdom"] or cfg["rdom"] or cfg["jmono"] or cfg["juni"]) else "",
-                                      d["kclass"])
-    cases.append(Case(d, coq=coq, pred_fail="; ".join(fails) if fails else None, nontrivial=bool(moved), klass=klass,
+    klass = "r%d_u%d_%s%s%s%s%s_%s%s" % (len(cfg["sizes"]), cfg["units"], "nomonoDykstra" if nomono_ran else "",
+                                        "E" if cfg["edge"] else "", "T" if cfg["trap"] else "",
+                                        "B" if cfg["omin"] is not None or cfg["omax"] is not None else "",
+                                        "O" if (any(cfg["uni"]) or cfg["mdom"] or cfg["rdom"] or cfg["jmono"] or cfg["juni"]) else "",
+                                        d["kclass"], "_f32" if f32 else ("_layer" if d.get("via_layer") else ""))
+    cases.append(Case(d, coq=coq, pred_fail="; ".join(fails) if fails else None,
+                      nontrivial=bool(moved) or d["kclass"] == "feasible_rich", klass=klass,
                       info={"finalize_output": flat(fin), "constraint_output": flat(out)}))
   return cases
